@@ -43,6 +43,9 @@ func (fc *fnCtx) instr(in ssa.Instruction) {
 	switch x := in.(type) {
 	case *ssa.DebugRef:
 		if id, ok := x.Expr.(*ast.Ident); ok {
+			if obj := x.Object(); obj != nil && obj.Pkg() != nil && obj.Parent() == obj.Pkg().Scope() {
+				return // a package-level variable or constant: specs resolve it through the package scope, never as a local
+			}
 			if fc.allocVars()[id.Name] {
 				return // address-taken variable: its name always denotes the current content of its cell (bound at the Alloc)
 			}
